@@ -939,6 +939,11 @@ func stableFieldObligations(w *World) []*workItem {
 						if !ok || su.Field(fa.Field).Name() != f {
 							continue
 						}
+						if _, fresh := fa.X.(*ssa.Alloc); fresh {
+							// initialisation of an object this function has just allocated (composite
+							// literal, local variable): construction, not a write to an existing object
+							continue
+						}
 						seen = true
 						if !writers[key] {
 							bad = append(bad, key+" at "+w.Prog.Fset.Position(st.Pos()).String())
